@@ -53,6 +53,7 @@ static int g_opno[MAX_FIBERS];
 static int g_sleeping[MAX_FIBERS];
 static fiber_t* g_pending_old[VS_MAX_THREADS];
 static grec_t* g_running[VS_MAX_THREADS];
+static int g_running_maint[VS_MAX_THREADS];  // 1 = the maintenance (idle-loop) fiber runs on that vthread, -1 = unknown yet
 static uint64_t g_seq;
 static swlog_t g_sw[VS_MAX_THREADS];
 static int g_kernel_block_expected;
@@ -204,6 +205,7 @@ void verif_switch(struct fiber_manager* m, struct fiber* oldf, struct fiber* new
   n->switches++;
   g_pending_old[T] = oldf;
   g_running[T] = n;
+  g_running_maint[T] = is_maint;
   g_seq++;
   swlog_t* L = &g_sw[T];
   if (L->n < 8192) L->who[L->n++] = is_maint ? -2 : (n->idx >= 0 ? n->idx : (n->is_thread_fiber ? -1 : -3));
@@ -240,9 +242,15 @@ void g_bind(int idx) {
   g_by_idx[idx] = r;
   vs_rt_exit();
 }
-void g_done(int idx) { g_done_flag[idx] = 1; }
+void g_done(int idx) {
+  g_done_flag[idx] = 1;
+  vs_program_advanced();
+}
 int g_is_done(int idx) { return g_done_flag[idx]; }
-void g_set_op(int idx, int opno) { g_opno[idx] = opno; }
+void g_set_op(int idx, int opno) {
+  g_opno[idx] = opno;
+  vs_program_advanced();
+}
 int g_fiber_saved(int idx) { return g_by_idx[idx] && g_by_idx[idx]->state == GS_SAVED; }
 int g_fiber_destroyed(int idx) { return g_by_idx[idx] && g_by_idx[idx]->state == GS_DESTROYED; }
 uint64_t g_ticks(void) { return vs_ticks_delivered(); }
@@ -291,7 +299,8 @@ static void describe_unfinished(char* buf, size_t n) {
   for (int i = 0; i < g_case.n_fibers && o + 40 < n; i++)
     if (!g_done_flag[i]) {
       const op_t* op = g_opno[i] < g_case.n_ops[i] ? &g_case.ops[i][g_opno[i]] : 0;
-      o += snprintf(buf + o, n - o, "fiber %d at op %d (%s %d %d); ", i, g_opno[i], op ? op->name : "?", op ? op->a : 0, op ? op->b : 0);
+      o += snprintf(buf + o, n - o, "fiber %d at op %d (%s %d %d) [lib state %d, %s, pending %d]; ", i, g_opno[i], op ? op->name : "?", op ? op->a : 0, op ? op->b : 0,
+                    g_by_idx[i] ? (int)g_by_idx[i]->f->state : -1, g_by_idx[i] ? gs_name(g_by_idx[i]->state) : "?", g_by_idx[i] ? g_by_idx[i]->pending : -1);
     }
 }
 
@@ -339,8 +348,23 @@ static void on_quiescence(void) {
   vs_finish_ok();
 }
 
+static int idle_context(void) {
+  int T = vs_self();
+  // kernel threads other than the first start directly in their idle loop
+  if (!g_running[T]) return T != 0;
+  return g_running_maint[T];
+}
+static const char* describe_state(void) {
+  static char buf[300];
+  describe_unfinished(buf, sizeof buf);
+  return buf;
+}
 const harness_t* rt_harness(void) { return H; }
-void rt_install_quiescence(void) { vs_set_quiescence_cb(on_quiescence); }
+void rt_install_quiescence(void) {
+  vs_set_quiescence_cb(on_quiescence);
+  vs_describe_state = describe_state;
+  vs_idle_context = idle_context;
+}
 
 // ---------------------------------------------------------------------------
 // case parser
